@@ -126,6 +126,7 @@ class Obligations:
                         break
         dt = time.time() - t0
         self.solver_s += dt
+        self._dump(name, assumptions, neg, r)
         if r == "unsat":
             self.discharged += 1
             if len(self.samples) < 3:
@@ -144,6 +145,24 @@ class Obligations:
         else:
             self.inconclusive.append({"obligation": name, "reason": s.reason_unknown(), "solver_s": round(dt, 2)})
         return r
+
+    def _dump(self, name, assumptions, neg, result):
+        """MDPV_DUMP=<dir>: write the exact query of the first two obligations of each job as SMT-LIB2 (for the
+        z3 / cvc5 cross-check in tools/crosscheck.py)."""
+        import os
+        d = os.environ.get("MDPV_DUMP")
+        if not d or self.extra.get("_dumped", 0) >= 2 or result not in ("sat", "unsat"):
+            return
+        self.extra["_dumped"] = self.extra.get("_dumped", 0) + 1
+        s = z3.Solver()
+        for a in assumptions:
+            if zx.is_z(a):
+                s.add(a)
+        s.add(neg)
+        os.makedirs(d, exist_ok=True)
+        safe = "".join(c if c.isalnum() else "_" for c in f"{self.job.get('name')}__{name}")[:150]
+        with open(os.path.join(d, f"{safe}.{result}.smt2"), "w") as f:
+            f.write(s.to_smt2())
 
     def _prove_nonlinear(self, assumptions, neg, budget):
         """Stage 1: products abstracted by an uninterpreted commutative function (sound for unsat).
